@@ -521,7 +521,21 @@ impl KeyKeeper {
                                 .await;
                             }
                             Err(e) => {
-                                logger::write_warning(format!("Failed to attest the key: {:?}", e));
+                                // signing with a key that is not valid hex fails with an error that quotes
+                                // the key value: report the kind of failure, not the key
+                                let detail = match &e {
+                                    Error::Hex(_, hex_error) => {
+                                        format!(
+                                            "the key value is not a valid hex string: {}",
+                                            hex_error
+                                        )
+                                    }
+                                    _ => format!("{:?}", e),
+                                };
+                                logger::write_warning(format!(
+                                    "Failed to attest the key: {}",
+                                    detail
+                                ));
                                 continue;
                             }
                         }
